@@ -25,7 +25,8 @@ ORDERED_POOLS = [
     [-2.5, -0.0, 0.25, 7.0, 8.5, 9.75],
 ]
 # pools for ==, in, keys: pairwise unequal in Python (no 1 == True == 1.0 traps)
-PLAIN_POOLS = ORDERED_POOLS[:6] + [
+ORDERED_POOLS.append(["\xdf\u20ac", "\xe9", "\xff", "\u03a9", "\u6f22\u5b57", "\U0001f600"])      # beyond ASCII / latin-1 / the BMP
+PLAIN_POOLS = ORDERED_POOLS[:6] + [ORDERED_POOLS[-1]] + [
     [None, "x", 2.5, b"x", 7, "y"],
     [None, True, "True", b"\x00", -1, 3.0],
     ["x" * 30, "y" * 30, "z" * 30, "w" * 30, "v" * 30, "u" * 30],
@@ -61,6 +62,21 @@ class Beta:
         # how list / dict displays are laid out: plain, with a trailing comma, one element per line (black style)
         self.display = rng.choice(["plain", "plain", "trailing", "multiline"])
         self.site_wrapper: dict = {}
+        # twins: an equal value of another type (1 == True == 1.0).  Only used as the compared value of `in`
+        # statements: membership is decided by ==, so a twin behaves exactly like the atom it is equal to
+        self.twins = {}
+        if carrier is None:
+            for i, v in enumerate(self.raw):
+                if type(v) is int and v in (0, 1) and rng.random() < 0.5:
+                    self.twins[i] = bool(v)
+                elif type(v) is int and abs(v) < 2 ** 50:
+                    self.twins[i] = float(v)
+                elif type(v) is float and v == int(v) and repr(v) != "-0.0":
+                    self.twins[i] = int(v)
+                elif type(v) is bool:
+                    self.twins[i] = int(v)
+            if any(type(t) is type(w) and t == w for j, t in self.twins.items() for k, w in enumerate(self.raw) if k != j):
+                self.twins = {}         # (a twin must not collide with another atom of the pool)
         self.name = "atoms=%r keys=%r wrap=%s carrier=%s" % (self.atoms, self.keys[:3], self.wrapper, carrier)
 
     def carry(self, v):
@@ -93,6 +109,9 @@ class Beta:
     def inv(self, value):
         for i, a in enumerate(self.atoms):
             if type(a) is type(value) and a == value and repr(a) == repr(value):
+                return i
+        for i, t in self.twins.items():
+            if type(t) is type(value) and t == value:
                 return i
         return None
 
@@ -251,6 +270,8 @@ def render(ops, srcs, prog, beta: Beta, imp: bool, rng: random.Random, placement
             if mutate and s["op"] not in ("none", "chg", "raise", "lebot", "gebot", "eqbad", "inbad", "dget"):
                 out.append(f"    _set(_o, {mval(s['x'])!r})\n")
                 xe = '("t", _o)' if tup else "_o"
+            if xe is None and s["op"] == "in" and s["x"] in beta.twins and rng.random() < 0.5:
+                xe = repr(beta.twins[s["x"]])
             if placement == "param" and s["op"] not in ("none", "chg", "raise"):
                 e = "_cmp(lambda _s: %s, %s)" % (stmt_expr(beta, s, "_s", refl, xe), site)
             else:
@@ -290,7 +311,7 @@ def alpha_entry(beta: Beta, node, k=0, site=None):
     a = beta.inv(value)
     if a is None:
         return {"alien": "value %r" % (value,)}
-    if _same(node, beta.canon_text(a)):
+    if _same(node, beta.canon_text(a)) or (a in beta.twins and _same(node, repr(beta.twins[a]))):
         return {"k": k, "v": a, "canon": True}
     for w in {beta.wrapper, beta.site_wrapper.get(site, beta.wrapper)}:
         if _same(node, w.format(t=beta.canon_text(a), t2=beta.canon_text((a + 1) % len(beta.atoms)), i=site)):
@@ -328,11 +349,17 @@ def alpha_src(beta: Beta, op: str, arg_node, site=None):
 
 # ---------------------------------------------------------------------------------------------------
 # file layouts (C03): attributes of the surrounding file that must not matter
-LAYOUTS = ["ff", "ls", "nonascii", "tabs", "crlf", "cr", "nonl", "bom", "widechars", "comment-tail"]
+LAYOUTS = ["ff", "ls", "nonascii", "tabs", "crlf", "cr", "nonl", "bom", "widechars", "comment-tail", "latin1", "latin1"]
 
 
 def apply_layout(text: str, attrs, rng: random.Random) -> str:
     """re-layout a rendered module without changing its meaning"""
+    if "latin1" in attrs:
+        # a file with a PEP 263 declaration: stored in latin-1 (harness/srcio.py), with latin-1 text in a comment and
+        # in a string; the layouts that need other characters outside of string literals are dropped
+        attrs = [a for a in attrs if a not in ("bom", "ls", "nonascii", "widechars", "comment-tail")]
+        text = text.replace("import verif_rec as _r\n", 'import verif_rec as _r\n\n# caf\xe9 \xa7 comment\n_l1 = "\xfc\xdf"\n', 1)
+        text = "# -*- coding: latin-1 -*-\n" + text
     lines = text.split("\n")
     out = []
     for l in lines:
@@ -360,4 +387,8 @@ def apply_layout(text: str, attrs, rng: random.Random) -> str:
         text = text.replace("\n", "\r\n")
     elif "cr" in attrs:
         text = text.replace("\n", "\r")
+    if text.startswith("# -*- coding: latin-1 -*-"):
+        # exactly the text that is on disk: what latin-1 cannot represent is written as an escape (the module only
+        # holds such characters inside plain string literals)
+        text = text.encode("latin-1", "backslashreplace").decode("latin-1")
     return text
